@@ -698,6 +698,20 @@ def rule_marker_queues_read_item_by_item(ctx, rule='C04.j'):
                                                                         c.func.value.attr), f, ok,
                             detail or '%s = <item>; if isinstance(%s, ...)' % (st.targets[0].id, st.targets[0].id))
     rep.require(rule, 'reads of marker queues', n_sites, 2)
+    # the test tells data from marker only if no data item is an exception: what the parser yields - frames and the
+    # invalid-frame marker - must not be exception classes
+    frame_base = repo.cls('rsocket.frame:Frame')
+    invalid = repo.cls('rsocket.frame:InvalidFrame')
+    if frame_base is None or invalid is None:
+        raise AnalysisError('%s: Frame / InvalidFrame vanished' % rule)
+    excs = _exception_classes(repo)
+    items = [k for k in repo.all_classes() if k is invalid or k.is_subclass_of(frame_base)]
+    bad = [k for k in items if k.name in excs]
+    rep.add(rule, 'parser output / no frame class and no invalid-frame marker is an exception', invalid, not bad,
+            '%d classes, none derives from an exception class' % len(items) if not bad else
+            '%s is an exception class: in a queue read with isinstance(item, Exception) it is taken for the '
+            'end-of-connection marker and raised - one undecodable message ends the receive loop' %
+            ', '.join(k.name for k in bad))
 
 
 def _blocks(node):
